@@ -206,12 +206,21 @@ class LazyRows:
         return '<LazyRows %d %s>' % (self.tag, 'pending ' * 30)
 
 
+class KwOnlyTraceErr(GlomError):
+    def __init__(self, *, code):
+        super().__init__('quota %d exceeded' % code)
+        self.code = code
+
+
 class BoomFn:
-    def __init__(self, tag):
+    def __init__(self, tag, cls=None):
         self.tag = tag
+        self.cls = cls
         self.__name__ = 'boom%d' % tag
 
     def __call__(self, t):
+        if self.cls is not None:
+            raise self.cls(code=self.tag)
         raise ValueError('boom%d' % self.tag)
 
     def __repr__(self):
@@ -225,12 +234,22 @@ def make_target(style):
         t['pad2'] = list(range(30))
     elif style == 'unicode':
         t['ü'] = 'héllo wörld 日本'
+    elif style == 'deep':
+        t['a']['b'] = [[[[[[[1, 2]]]]]]]       # nested deeper than a default-configured reprlib prints
     return t
+
+
+def _plain(v, depth=0):
+    if depth > 20:
+        return False
+    if type(v) in (dict, list, tuple):
+        return all(_plain(x, depth + 1) for x in (list(v.keys()) + list(v.values()) if type(v) is dict else v))
+    return type(v) in (str, int, float, bool, type(None))
 
 
 FAIL_KINDS = ['missing-path', 'failing-T', 'raising-callable', 'match-type', 'check', 'exhausted-coalesce', 'missing-attr',
               'exhausted-coalesce-skip', 'list-segment', 'raises-after-recovered-child', 'exhausted-coalesce-of-T',
-              'long-target-without-a-usable-len']
+              'long-target-without-a-usable-len', 'user-glomerror-kwonly']
 
 
 class SpecGen:
@@ -260,6 +279,9 @@ class SpecGen:
                 return T['a'].attr_zz
             if k == 'raising-callable':
                 return BoomFn(n)
+            if k == 'user-glomerror-kwonly':
+                # the error raised is a user's GlomError subclass that cannot be re-created from its args
+                return BoomFn(n, KwOnlyTraceErr)
             if k == 'match-type':
                 return Match({'k': str, 'zz%d' % n: object})
             if k == 'check':
@@ -461,6 +483,11 @@ def check_message(col, msg, root, target, desc, key, width):
         return col.violation('C05/wrong-target-for-failing-spec',
                              '%s: the failing spec %s received %s but the nearest Target line says %r\n%s'
                              % (desc, short(fmt_full(failing.spec), 100), short(fmt_full(failing.target), 120), tline and tline.text, msg), wit)
+    # (4') a value that fits on its line is shown as it is: no part of a plain value may be replaced by an ellipsis
+    for ln, value in ((first, target), (tline, failing.target)):
+        if _plain(value) and '...' in ln.text and '...' not in repr(value) and len(ln.raw) - len(ln.text) + len(repr(value)) <= width:
+            return col.violation('C05/target-abbreviated-although-it-fits', '%s: the line %r stands for %s, which fits in the width of %d\n%s'
+                                 % (desc, ln.raw, repr(value), width, msg), wit)
     # (5) ends with the type and message of the original error
     last = msg.rstrip('\n').split('\n')[-1]
     want_last = exc_line(original)
@@ -561,7 +588,7 @@ def check_message(col, msg, root, target, desc, key, width):
 
 
 def one_case(col, rng, tracer, width):
-    style = rng.choice(['short', 'short', 'long', 'unicode'])
+    style = rng.choice(['short', 'short', 'long', 'unicode', 'deep'])
     target = TARGETS[style]
     kind = rng.choice(FAIL_KINDS)
     depth = rng.randint(1, 4)
@@ -641,7 +668,7 @@ def child_main(width, seed, shard, nshards, tier):
     rng = random.Random('C05/%s/%s/%s' % (seed, shard, width))
     if gcore.TRACE_WIDTH != width:
         col.fail_inconclusive('TRACE_WIDTH is %d, wanted %d' % (gcore.TRACE_WIDTH, width))
-    for style in ('short', 'long', 'unicode'):
+    for style in ('short', 'long', 'unicode', 'deep'):
         TARGETS[style] = make_target(style)
     tracer = EvalTracer()
     tracer.install()
